@@ -127,6 +127,10 @@ def run(ctx: Ctx, tier: str) -> Result:
         lp = loops[0]
         it_expr, tv = lp.iter, norm(lp.target)
         exits = [n for n in ast.walk(lp) if isinstance(n, (ast.Break, ast.Return, ast.Continue))]
+        # `if not trigger.at_location(..): continue` skips the trigger that does not match - the guard form of the test
+        for g_ in [n for n in lp.body if isinstance(n, ast.If) and not n.orelse and len(n.body) == 1 and isinstance(n.body[0], ast.Continue)]:
+            if isinstance(g_.test, ast.UnaryOp) and isinstance(g_.test.op, ast.Not) and g_.test.operand is at:
+                exits = [x for x in exits if x is not g_.body[0]]
         adds = [n for n in ast.walk(lp) if (isinstance(n, ast.AugAssign) and isinstance(n.op, ast.Add)) or
                 (isinstance(n, ast.Call) and isinstance(n.func, ast.Attribute) and n.func.attr in ("extend", "append"))]
         adds_ok = bool(adds)
@@ -359,6 +363,8 @@ def run(ctx: Ctx, tier: str) -> Result:
     from .common import borrow
     borrow(ctx, res, tier, "c13", ("C13.ADD", "C13.ARGS"), "C03.PUBLISH", "what is installed is the service's tracepoints plus the registered ones, each once (a removed tracepoint stops acting)")
     borrow(ctx, res, tier, "c11", ("C11.ISOLATE",), "C03.ISOLATE", "a tracepoint that cannot be interpreted does not keep the others of the response from acting")
+    borrow(ctx, res, tier, "c15", ("C15.ONCE", "C15.THREAD"), "C03.DEFER", "the deferred part of an action is carried out by the event that ends the invocation that was hit, in its thread - "
+           "a context that is put back after it was processed, or a queue shared between threads, lets another event (a later call, another thread's return) cause the action")
     return res
 
 
